@@ -19,6 +19,7 @@ class Ctx:
         self.work = os.path.join(VERIF, ".work", "%s.%d" % (pid, os.getpid()))
         shutil.rmtree(self.work, ignore_errors=True)
         os.makedirs(self.work)
+        shutil.rmtree(os.path.join(VERIF, "replays", pid), ignore_errors=True)     # replay files of earlier runs are stale
         self.rng = random.Random(seed)
         self.p1 = []            # model checking runs on the specification
         self.events = []        # recorded implementation events (dicts with tid)
